@@ -64,13 +64,30 @@ def cipher_sites(ctx: Context):
         cfg = ctx.cfg(f.qualname)
         for n in cfg.nodes:
             for c in ctx.calls(n):
-                if not (isinstance(c.func, ast.Attribute) and c.func.attr in AEAD_METHODS):
+                kind_ = None
+                if isinstance(c.func, ast.Attribute) and c.func.attr in AEAD_METHODS:
+                    kind_ = c.func.attr
+                elif isinstance(c.func, ast.Name):
+                    # a local alias of a bound cipher method:  enc = self.encryptor.encrypt ; enc(...)
+                    ft = T.of(cfg, n, c.func)
+                    if ft[0] == "attr" and ft[2] in AEAD_METHODS:
+                        kind_ = ft[2]
+                if kind_ is None:
                     continue
                 args = [T.of(cfg, n, a) for a in c.args]
                 # which argument is the nonce: by the parameter name of the resolved package method, else the
                 # library order (nonce, data, aad)
                 idx = 0
-                for cal in ctx.callee_names(f, c):
+                cands = list(ctx.callee_names(f, c))
+                if isinstance(c.func, ast.Name):
+                    ft = T.of(cfg, n, c.func)
+                    ocls = _owner_cls(f)
+                    if ft[0] == "attr" and ft[1][0] == "attr" and ft[1][1] == ("param", "self") and ocls is not None:
+                        for tname in ctx.res.attr_type(ocls.qualname, ft[1][2]):
+                            m = ctx.prog.lookup_method(tname, kind_)
+                            if m is not None:
+                                cands.append(m.qualname)
+                for cal in cands:
                     g = ctx.prog.functions.get(cal)
                     if g is not None and "nonce" in g.pos_params:
                         idx = g.pos_params.index("nonce") - (1 if g.cls is not None else 0)
@@ -80,8 +97,11 @@ def cipher_sites(ctx: Context):
                 if not (_is_pack(a) or (a[0] == "const" and isinstance(a[1], bytes)) or a[0] == "add"):
                     continue
                 nonce = a
-                recv = T.of(cfg, n, c.func.value)
-                out.append((f, cfg, n, c, nonce, recv, c.func.attr))
+                if isinstance(c.func, ast.Attribute):
+                    recv = T.of(cfg, n, c.func.value)
+                else:
+                    recv = T.of(cfg, n, c.func)[1]
+                out.append((f, cfg, n, c, nonce, recv, kind_))
     return out
 
 
@@ -106,6 +126,7 @@ def run(ctx: Context) -> None:
         _t1(ctx, label_sites)
     if ck.rule("C06.T2", "fresh keys per session object"):
         _t2(ctx)
+        _fresh_derive(ctx)
     if ck.rule("C06.G2", "desynchronisation ends the session"):
         _g2(ctx)
 
@@ -277,7 +298,19 @@ def _g1(ctx: Context, counter_sites) -> None:
             f"{short}: {ctr} is incremented {'twice without a cipher call in between' if dbl else 'never'}: sender and receiver counters diverge",
             ctx.loc(f, n),
         )
-        # the nonce is the counter itself (no arithmetic on it)
+        # the nonce is the counter attribute itself: a local copy / arithmetic on it detaches nonce and counter
+        T = ctx.terms
+        args = [T.of(cfg, n, a) for a in c.args]
+        direct = any(_is_pack(a) and a[2] and strip_sites(a[2][-1]) == ("attr", ("param", "self"), ctr) for a in args)
+        ck.check(
+            "C06.G1",
+            direct,
+            f"{short}: the nonce is built from self.{ctr} itself",
+            f"{ctx.fkey(f)}:nonce-not-the-counter:{ctr}",
+            f"{short}: the nonce of the {kind} is built from a value derived from self.{ctr} (a local copy or arithmetic), not from the counter "
+            "attribute itself: counter and nonce can diverge",
+            ctx.loc(f, n),
+        )
         done += 1
     ck.require_min("C06.G1", "counter-nonce cipher call sites", done, 7)
 
@@ -357,6 +390,48 @@ def _t2(ctx: Context) -> None:
                     t[1], lambda s: s[0] == "caught" and "StopIteration" in s[1] or (s[0] == "await" and contains(s, lambda z: z[0] == "glob" and z[1].endswith("drive_pairing_state_machine"))))
                 ck.check("C06.T2", ok, f"{short}: key #{idx} = derive(<labels>) of the pair-verify result obtained in this invocation",
                          f"{ctx.fkey(f)}:session-key:{short}:{idx}", f"{short}: key argument {idx} is {show(t, 120)}, not derived from this invocation's pair-verify result", ctx.loc(f, n))
+
+
+def _fresh_derive(ctx: Context) -> None:
+    """what pair-verify hands to the drivers is a derivation over THIS exchange's secret (never the previous session's)"""
+    ck = ctx.ck
+    T = ctx.terms
+    for q, fresh_ok in (
+        ("aiohomekit.protocol.get_session_keys", lambda t: contains(t, lambda s: s[0] == "call" and s[1][0] == "glob" and s[1][1].endswith("X25519PrivateKey.generate"))),
+        ("aiohomekit.protocol.resume_m3", lambda t: contains(t, lambda s: s[0] == "param")),
+    ):
+        f = ctx.func(q)
+        cfg = ctx.cfg(q)
+        n_ret = 0
+        for n in cfg.nodes:
+            if n.kind != "return" or not n.exprs:
+                continue
+            t = T.of(cfg, n, n.exprs[0])
+            if t == ("const", None) or t[0] == "call":
+                continue  # None / the value of resume_m3 (checked in its own function)
+            n_ret += 1
+            ok = t[0] == "tuple" and len(t[1]) == 2 and t[1][1][0] == "closure"
+            secret_ok = False
+            if ok:
+                cl = ctx.func(t[1][1][1])
+                ccfg = ctx.cfg(cl.qualname)
+                for r in ccfg.nodes:
+                    if r.kind == "return" and r.exprs:
+                        rt = T.of(ccfg, r, r.exprs[0])
+                        # hkdf_derive(<secret>, salt, info, ...): the secret must contain this exchange's fresh material
+                        for s in subterms(rt):
+                            if s[0] == "call" and s[2]:
+                                secret_ok = secret_ok or fresh_ok(s[2][0])
+            ck.check(
+                "C06.T2",
+                ok and secret_ok,
+                f"{f.name}: the returned key derivation is a closure over this exchange's fresh secret",
+                f"{ctx.fkey(f)}:stale-derive",
+                f"{f.name} returns {show(strip_sites(t), 120)} as the key derivation: it must be a closure created in this invocation over a secret "
+                "that depends on this exchange's fresh key (returning the previous session's derive re-installs old keys with counter 0 => nonce reuse, replay accepted)",
+                ctx.loc(f, n),
+            )
+        ck.require_min("C06.T2", f"{f.name}: key-bearing returns", n_ret, 1)
 
 
 def _g2(ctx: Context) -> None:
